@@ -72,6 +72,9 @@ func genC07(r *rand.Rand, tier string, idx int) []string {
 	for i, n := 0, 1+r.Intn(2); i < n; i++ {
 		g.keys = append(g.keys, fmt.Sprintf("k%d", i+1))
 	}
+	if idx%4 == 2 {
+		g.initAdv() // colliding names (hashes / keys of different lengths, prefixes and suffixes of one string)
+	}
 	if g.node {
 		g.emit("mode node")
 	} else {
@@ -141,6 +144,7 @@ func genC07(r *rand.Rand, tier string, idx int) []string {
 			g.emit("sget %s %s", k, b.hash)
 		}
 	}
+	g.querySweep()
 	return g.ops
 }
 
@@ -150,7 +154,7 @@ func (g *c06gen) newBlockWithParent(prev string) {
 		return
 	}
 	g.nb++
-	b := &c06gBlock{bid: fmt.Sprintf("b%d", g.nb), hash: fmt.Sprintf("h%d", g.nb), prev: prev}
+	b := &c06gBlock{bid: fmt.Sprintf("b%d", g.nb), hash: g.freshHash(g.nb), prev: prev}
 	g.blocks = append(g.blocks, b)
 	g.hashes = append(g.hashes, b.hash)
 	g.emit("blk %s %s %s", b.bid, b.hash, b.prev)
